@@ -103,8 +103,9 @@ def gen_model(rng: random.Random) -> dict:
     init_imports = []
     for o in rng.sample(core, rng.randint(0, min(3, len(core)))):
         init_imports.append(("pk.core", o["name"], rng.choice([None, None, o["name"] + "_re"])))
-    for o in rng.sample(impl, rng.randint(1, min(2, len(impl)))):
-        init_imports.append(("pk._impl", o["name"], rng.choice([None, o["name"] + "_re"])))
+    for o in rng.sample(impl, rng.randint(1, min(3, len(impl)))):
+        # private-module objects (some with private names) re-exported, possibly under a public name
+        init_imports.append(("pk._impl", o["name"], rng.choice([None, o["name"] + "_re", o["name"].lstrip("_") + "_pub"])))
     init_objs = gen_objs(rng.randint(0, 2), 0.2)
     init_all = None
     if rng.random() < 0.7:
@@ -117,7 +118,10 @@ def gen_model(rng: random.Random) -> dict:
     submod_objs = gen_objs(rng.randint(1, 2), 0.2)
     submod_objs.append(gen_class(fresh("D"), [target["name"]]))
     mods["pk.sub.mod"] = {"objs": submod_objs, "imports": [("pk.core", target["name"], None)], "all": None}
-    return {"mods": mods, "extra": rng.choice([None, None, "dangling", "cyclic"])}
+    extra = rng.choice([None, None, "dangling", "cyclic"])
+    if extra and mods["pk"]["all"] is not None:
+        mods["pk"]["all"].append("ghost" if extra == "dangling" else "loop_a")  # the broken re-export is exported
+    return {"mods": mods, "extra": extra}
 
 
 def render_obj(o: dict, indent: str = "") -> str:
@@ -147,12 +151,7 @@ def render(model: dict) -> dict[str, str]:
         for o in m["objs"]:
             src += render_obj(o)
         if m["all"] is not None:
-            extra = []
-            if mod == "pk" and model.get("extra") == "dangling":
-                extra = ["ghost"]
-            if mod == "pk" and model.get("extra") == "cyclic":
-                extra = ["loop_a"]
-            src += f"__all__ = {m['all'] + extra!r}\n"
+            src += f"__all__ = {m['all']!r}\n"
         rel = mod.replace(".", "/") + ("/__init__.py" if mod in pkgs else ".py")
         files[rel] = src or "\n"
     return files
@@ -248,6 +247,20 @@ def all_objects(model: dict):  # noqa: ANN201
                     yield mod, o, mem
 
 
+def prefer_hidden(rng: random.Random, cands: list, surface: dict):  # noqa: ANN201
+    """Bias incompatible edits towards objects that are public *only* through a re-export or inheritance
+    (their canonical path is not among their public paths) and towards members of such objects."""
+    def hidden(c):  # noqa: ANN001, ANN202
+        m, cls, o = c
+        top = canon(m, None, cls) if cls else canon(m, cls, o)
+        paths = surface.get(canon(m, cls, o), set())
+        return bool(paths) and canon(m, cls, o) not in paths or (bool(surface.get(top)) and top not in surface.get(top, set()))
+    hid = [c for c in cands if hidden(c)]
+    if hid and rng.random() < 0.5:
+        return rng.choice(hid)
+    return rng.choice(cands)
+
+
 def apply_edit(rng: random.Random, old: dict, new: dict, kind: str, surface: dict) -> dict | None:  # noqa: C901, PLR0911, PLR0912
     """Mutates ``new``; returns an expectation record or None when not applicable."""
     objs = list(all_objects(new))
@@ -298,7 +311,7 @@ def apply_edit(rng: random.Random, old: dict, new: dict, kind: str, surface: dic
         return {"edit": kind, "where": "pk.extraN", "expect": None}
     # incompatible ---------------------------------------------------------------------------
     if kind == "remove":
-        m, c, o = rng.choice(objs)
+        m, c, o = prefer_hidden(rng, objs, surface)
         path = canon(m, c, o)
         if c:
             c["members"].remove(o)
@@ -335,7 +348,7 @@ def apply_edit(rng: random.Random, old: dict, new: dict, kind: str, surface: dic
         cands = [(m, c, o) for m, c, o in cands if not (c is None and (m, o["name"]) in used_as_base)]
         if not cands:
             return None
-        m, c, o = rng.choice(cands)
+        m, c, o = prefer_hidden(rng, cands, surface)
         path = canon(m, c, o)
         newkind = rng.choice([k for k in ("func", "attr", "class") if k != o["kind"]])
         o["kind"] = newkind
@@ -355,7 +368,7 @@ def apply_edit(rng: random.Random, old: dict, new: dict, kind: str, surface: dic
         cands = [(m, c, o) for m, c, o in objs if o["kind"] == "attr"]
         if not cands:
             return None
-        m, c, o = rng.choice(cands)
+        m, c, o = prefer_hidden(rng, cands, surface)
         o["value"] = str(int(o["value"]) + 10)
         return {"edit": kind, "where": canon(m, c, o), "expect": "Attribute value was changed"}
     return None
@@ -467,8 +480,15 @@ def judge(rec, case: dict, expectations: list[dict], old_surface: dict, new_surf
         ok = any(d["kind"] == r["kind"] and (r["path"] == d["path"] or r["canonical"] == d["canonical"] or r["path"] == d["canonical"])
                  for d in diffs)
         if not ok:
+            fid = None
+            if r["kind"] == "Attribute value was changed" and r["path"].endswith(".__all__"):
+                modpath = r["path"][: -len(".__all__")]
+                rel = modpath.replace(".", "/")
+                src = case["old"].get(rel + "/__init__.py", case["old"].get(rel + ".py", ""))
+                if "__all__ = []" in src:
+                    fid = "C11-empty-all-is-itself-public"
             return (f"breakage '{r['kind']}' on {r['path']} does not correspond to any difference between the public surfaces "
-                    "(private / imported-not-exported object, or nothing changed there)", rows, diffs)
+                    "(private / imported-not-exported object, or nothing changed there)", rows, diffs, fid)
     for e in expectations:
         if e["expect"] and not any(d["canonical"].startswith(e["where"]) or e["where"].startswith(d["canonical"]) for d in diffs):
             rec.count("incompatible_private_edits_silent")
@@ -557,14 +577,15 @@ def judge_files(rec, old_files, new_files, expectations, old_surface, new_surfac
         rec.fail_exc(case, f"{type(exc).__name__} during API comparison", exc, nontrivial=nontrivial)
         return
     if res:
-        rec.fail(case, res[0], observed=res[1], expected=res[2], nontrivial=nontrivial)
+        rec.fail(case, res[0], observed=res[1], expected=res[2], finding=res[3] if len(res) > 3 else None,
+                 tried=["C11-empty-all-is-itself-public"], nontrivial=nontrivial)
     else:
         tags = tuple(sorted({e["edit"] for e in expectations})) or ("identical",)
         rec.ok(case, nontrivial=nontrivial, tags=tags)
 
 
 def shards(tier: str, seed: int) -> list[dict]:
-    n = 14 if tier == "quick" else 400
+    n = 45 if tier == "quick" else 600
     return [{"count": n, "cli": 1 if tier == "quick" else 6} for _ in range(16)]
 
 
